@@ -41,6 +41,9 @@ try:
 finally:
     subprocess.call(["git", "-C", "/repo", "worktree", "remove", "--force", wt])
 out_path = os.path.join(HERE, "evidence", "selftest_sensitivity.json")
+import fcntl
+_lk = open(out_path + ".lock", "w")
+fcntl.flock(_lk, fcntl.LOCK_EX)      # partial re-runs may run side by side: merge under a lock
 if want and os.path.exists(out_path):
     # a partial re-run (name prefixes given) replaces only its own entries
     prev = json.load(open(out_path)).get("results", {})
